@@ -41,6 +41,7 @@ FORMAT_MODULES = ["CGrammar", "PyGrammar", "Format", "FormatMC", "FormatConform"
 KEY_ALIASES = {
     "numba:syntax:unexpected token bad '!'": "numba:Not:prints-bang",
     "C:syntax:operand of -- is not an lvalue": "C:Neg:negative-literal:prints-decrement",
+    "numba:syntax:expected a name after '.'": "numba:dtype-name:prints-class-repr",
 }
 
 
@@ -778,6 +779,8 @@ def gen_main(jobfile: str, outfile: str):
     fm = formatters()
     jobs = json.loads(Path(jobfile).read_text())
     cs = CaseSet()
+    nested = CaseSet()
+    nested_of: dict[str, list] = {}
     stats = {"kernels": 0, "parts": 0, "skipped": [], "whole_mismatch": 0, "kinds": {}}
     ns: dict = {}
     exec(CORPUS, ns)  # noqa: S102
@@ -826,14 +829,22 @@ def gen_main(jobfile: str, outfile: str):
                     stats["parts"] += 1
                     stats["kinds"][type(p).__name__] = stats["kinds"].get(type(p).__name__, 0) + 1
                     tag = f"{Path(job['name']).name}:{kname}:stmt{i}"
+                    n0 = len(cs.cases)
                     cs.add(lang, st, "stmts", p, f"{tag}:{type(p).__name__}", fm)
-                    # every simple statement nested in a loop / section again on its own, so that one defect
-                    # does not hide another one later in the same loop body (TLC reports the first difference)
+                    if len(cs.cases) == n0:
+                        continue
+                    # every simple statement nested in a loop / section again on its own: judged only if TLC rejects
+                    # the enclosing statement, so that one defect does not hide another one later in the same loop
+                    # body (TLC reports the first difference)
+                    parent = cs.cases[-1]["id"]
                     for j, q in enumerate(_nested_simple(p, L)):
                         stats["nested"] = stats.get("nested", 0) + 1
-                        cs.add(lang, st, "stmts", q, f"{tag}.{j}:{type(q).__name__}", fm)
+                        nested.add(lang, st, "stmts", q, f"{tag}.{j}:{type(q).__name__}", fm)
+                        nested_of.setdefault(parent, []).append(nested.cases[-1]["id"])
     Path(outfile).write_text(json.dumps({"cases": cs.cases, "info": cs.info, "lit_fail": cs.lit_fail, "raised": cs.raised,
-                                         "stats": stats}))
+                                         "stats": stats, "nested_of": nested_of,
+                                         "nested": {"cases": nested.cases, "info": nested.info, "lit_fail": nested.lit_fail,
+                                                    "raised": nested.raised}}))
 
 
 def run_corpus(chk, quick: bool):
@@ -855,8 +866,11 @@ def run_corpus(chk, quick: bool):
         for f in sorted((REPO / "demo").glob("*.py")):
             if f.name.startswith("test_"):
                 continue
+            half = random.Random(f"{chk.seed}:{f.name}").random() < 0.5
             for st in SCALAR_TYPES:
                 if f.name == "ComplexPoisson.py" and not st.startswith("complex"):
+                    continue
+                if st in ("float32", "complex64") and not half:
                     continue
                 jobs.append({"kind": "demo", "name": str(f), "st": st})
         for st in ("float64", "float32"):
@@ -876,6 +890,8 @@ def run_corpus(chk, quick: bool):
                                        cwd=str(Path(__file__).resolve().parents[1]), stdout=subprocess.PIPE,
                                        stderr=subprocess.STDOUT, text=True), of))
     cs = CaseSet()
+    nested = CaseSet()
+    nested_of: dict[str, list] = {}
     stats = {"kernels": 0, "parts": 0, "nested": 0, "skipped": [], "whole_mismatch": 0, "kinds": {}}
     for w, (p, of) in enumerate(procs):
         out, _ = p.communicate(timeout=3000)
@@ -892,13 +908,25 @@ def run_corpus(chk, quick: bool):
             cs.info[ren[k]] = v
         cs.lit_fail += [(a, b, c, ren[e]) for a, b, c, e in d["lit_fail"]]
         cs.raised += [tuple(x) for x in d["raised"]]
+        nren = {}
+        for c in d["nested"]["cases"]:
+            nid = f"n{w}{c['id']}"
+            nren[c["id"]] = nid
+            c["id"] = nid
+            nested.cases.append(c)
+        for k, v in d["nested"]["info"].items():
+            nested.info[nren[k]] = v
+        # literal failures / formatter exceptions of nested statements are those of the enclosing statement's text
+        nested.raised += [tuple(x) for x in d["nested"]["raised"]]
+        for k, v in d["nested_of"].items():
+            nested_of[ren[k]] = [nren[x] for x in v]
         for k in ("kernels", "parts", "whole_mismatch", "nested"):
             stats[k] += d["stats"].get(k, 0)
         stats["skipped"] += d["stats"]["skipped"]
         for k, v in d["stats"]["kinds"].items():
             stats["kinds"][k] = stats["kinds"].get(k, 0) + v
     ntok = sum(len(c["toks"]) for c in cs.cases)
-    chk.note(f"corpus: {len(jobs)} (form, scalar type) jobs -> {stats['kernels']} kernel ASTs, {stats['parts']} top-level statements (+{stats['nested']} nested simple statements again on their own) "
+    chk.note(f"corpus: {len(jobs)} (form, scalar type) jobs -> {stats['kernels']} kernel ASTs, {stats['parts']} top-level statements ({stats['nested']} nested simple statements kept for a second pass) "
              f"formatted by the real C and numba formatters, {ntok} tokens; statement kinds {stats['kinds']}; "
              f"skipped {len(stats['skipped'])}; whole-text != concatenation of parts: {stats['whole_mismatch']}")
     for s in stats["skipped"][:10]:
@@ -907,8 +935,16 @@ def run_corpus(chk, quick: bool):
             corpus_jobs_skipped=len(stats["skipped"]))
     if stats["kernels"] == 0:
         raise MachineryError("corpus produced no kernels")
-    judge(chk, cs, "corpus", parallel=3)
+    judge(chk, cs, "corpus", parallel=4)
     report_literals_and_raises(chk, cs)
+    if cs.rejected:
+        want = {n for cid in cs.rejected for n in nested_of.get(cid, [])}
+        sub = CaseSet()
+        sub.cases = [c for c in nested.cases if c["id"] in want]
+        sub.info = {c["id"]: nested.info[c["id"]] for c in sub.cases}
+        chk.note(f"{len(cs.rejected)} top-level statements rejected; judging their {len(sub.cases)} nested simple statements one by one")
+        judge(chk, sub, "corpus-nested", parallel=4)
+    cs.raised += nested.raised
     return cs
 
 
@@ -957,8 +993,12 @@ def run_controls(chk, cs: CaseSet):
 def run_c16(chk):
     quick = chk.tier == "quick"
     t0 = time.time()
-    trees, _bad = design_check(chk, 2 if quick else 3)
+    trees, bad = design_check(chk, 2 if quick else 3)
     cs1 = run_enumerated(chk, trees, quick)
+    if bad and not any(i["lang"] == "C" for cid, i in cs1.info.items() if cid in cs1.rejected):
+        # DESIGN.md section 7: model drift is reported, it is not a violation
+        chk.note("model drift: the pure design rule (Format.tla) has C counterexamples that the real C formatter does not show - "
+                 "the code guards the rule (e.g. parenthesises a unary-minus operand whose text starts with '-')")
     t1 = time.time()
     cs2 = run_corpus(chk, quick)
     t2 = time.time()
